@@ -37,6 +37,7 @@ Round 6: no fabricated parse context (k['raw']) for user callables; an escaped t
 a literal; parked size resolvers are scanned.
 Round 7: includes the struct-block rule of C03 (the pattern of a fixed value is what the field's own
 pack emits; the generated unpack must decode it with the field's own endianness).
+Round 8: the sub-mask walk that omits the empty sub-mask; includes the equality-shape rule of C20.
 """
 import ast
 
